@@ -7,10 +7,13 @@
    is made to fail at each position it can (fault enumeration).  What the model carries,
    and what is proved here, is the failure behaviour: the converter's n-th call is a
    parameter of the model, and a failing conversion makes the operation return an error
-   and no object.  Proved for the first conversion of an operation; the correspondence
-   run checks it at every position. *)
+   and no object.  Proved for the first conversion of an operation and, in the general
+   form, for the conversion at ANY call index k: the operation with call k failing
+   ([fail_at k c], Proofs/FailAny.v) either never makes that call and behaves as without
+   the fault, or returns an error -- never a conflict, a panic or another object.  The
+   correspondence run enumerates the positions on the implementation. *)
 From Coq Require Import List ZArith String Bool.
-From SMD Require Import Model.Value Model.Order Model.PathSet Model.Updater Proofs.FailLaws.
+From SMD Require Import Model.Value Model.Order Model.PathSet Model.Updater Proofs.FailLaws Proofs.FailAny.
 Import ListNotations.
 
 Theorem C08_apply_conversion_failure : forall c live cfg ver m r rest mgr force,
@@ -24,3 +27,20 @@ Theorem C08_update_conversion_failure : forall c live new ver m r rest mgr,
   update_op c live new ver ((m, r) :: rest) mgr = UErr EOther.
 Proof. exact update_first_conversion_failure. Qed.
 Print Assumptions C08_update_conversion_failure.
+
+Theorem C08_apply_failure_at_any_conversion :
+  forall (c : config) (k : nat) (live cfg : tv) (ver : string) 
+           (mf : managed) (mgr : string) (force : bool),
+         apply_op (fail_at k c) live cfg ver mf mgr force = UErr EOther \/
+         apply_op (fail_at k c) live cfg ver mf mgr force = apply_op c live cfg ver mf mgr force.
+Proof. exact apply_fault_any_index. Qed.
+Print Assumptions C08_apply_failure_at_any_conversion.
+
+Theorem C08_update_failure_at_any_conversion :
+  forall (c : config) (k : nat) (live new : tv) (ver : string) 
+           (mf : managed) (mgr : string),
+         update_op (fail_at k c) live new ver mf mgr = UErr EOther \/
+         update_op (fail_at k c) live new ver mf mgr = update_op c live new ver mf mgr.
+Proof. exact update_fault_any_index. Qed.
+Print Assumptions C08_update_failure_at_any_conversion.
+
